@@ -385,6 +385,15 @@ PROPS["C19"]["harnesses"] += [
       bounds="unwind 12; prefix lengths 1/2, names of 2 bytes"),
 ]
 
+PROPS["C19"]["harnesses"] += [
+    H("c19svc::c19_service_name_new", features=("iox2",), covers=2, timeout=2400, mem_gb=10,
+      what="ServiceName::new (iceoryx2 crate): accepted iff non-empty, code points < 128 without NUL, not starting "
+           "with the reserved prefix iox2://; round trip", bounds="unwind 10; all UTF-8 strings of <= 8 bytes"),
+    H("c19svc::c19_node_name_new", features=("iox2",), covers=2, timeout=2400, mem_gb=10,
+      what="NodeName::new: accepted iff code points < 128 without NUL; round trip",
+      bounds="unwind 10; all UTF-8 strings of <= 4 bytes"),
+]
+
 PROPS["C13"] = {
     "bounds": "one connection name, buffer 1, max borrow 1, 1 chunk, 1 segment, 1 channel; every drop order; each single "
               "mismatching parameter; forced removal of either role before or after the survivor leaves",
